@@ -94,6 +94,16 @@ def work(case):
 
     r = ci.run_remote(prog, sched, fail)
     streams.append((r['ops'], r['lines']))
+    # subscriptions are the process's own: while it is live it stays reachable, whatever other processes on the same communicator
+    # do (model-free reading of the `sub=` column of the observation lines)
+    for ln in r['lines']:
+        if ' sub=' in ln and ' st=' in ln:
+            lab = ln.split(' st=')[1].split(' ')[0]
+            sub = ln.split(' sub=')[1].split(' ')[0]
+            if lab in ('created', 'running', 'waiting') and sub != '11':
+                add('live-process-not-subscribed', 'a live process with a communicator is subscribed for RPC and broadcast messages '
+                    '(remote control reaches it) until it terminates', dict(line=ln[:200]))
+                break
     facts = dict(hist=r['hist'], handled=sum(1 for e in r['events'] if e['kind'] == 'call'), nlines=len(r['lines']))
     if kind == 'twin':
         t = ci.run_twin(prog, r)
@@ -279,6 +289,7 @@ def run(ctx):
         c = h.get('case') if isinstance(h, dict) else None
         if isinstance(c, dict) and 'prog' in c:
             cases.insert(0, _from_dict(c))
+    cases = common.probe_first(ctx, cases, work, lambda r: bool(r['failures']))
     with mp.Pool(ctx.workers) as pool:
         results = pool.map(work, cases, chunksize=max(1, min(64, len(cases) // (ctx.workers * 8) or 1)))
     failures, divergences = [], []
